@@ -299,7 +299,7 @@ def run(ctx):
                 "EncodedField.get_init_value().get_value(), EncodedAnnotation elements, and the initialiser text of DvClass.get_source() (int(text,0) / boolean). "
                 "distinct non-trivial = distinct (place, value type, width, sign)")
     ctx.assumptions = ["float/double are not in the statement (androguard marks them TODO): not checked", "the printed initialiser is compared for integral, char and boolean fields only"]
-    n = 240 if ctx.quick else 30000
+    n = 240 if ctx.quick else 200000
     ctx.run_shards(MOD, "shard", [[i, n // 16 + 1] for i in range(16)], timeout=3000)
     ctx.require_counter("static_values_compared", 500)
     ctx.require_counter("annotations_compared", 20)
